@@ -3,6 +3,7 @@ import MjProof.Num
 Executable model of the constraint-state update of the engine (C11, C12):
 
   src/engine/engine_core_constraint.c : mj_constraintUpdate_impl      (`update`, per-row / per-cone laws)
+                                        mj_makeImpedance              (`makeImpedance`: efc_R, efc_D, contact.mu)
   src/engine/engine_util_blas.c       : mju_dot / mju_norm            (`sumsq`, `norm`: same accumulation order)
                                         mju_mulMatTVec                (`mulMatTVec`, used by mj_mulJacTVec, dense case)
   src/engine/engine_util_misc.c       : mju_decodePyramid / mju_encodePyramid
@@ -227,6 +228,97 @@ decreasing_by
     with `nefc = 0` the function only clears the cost. -/
 def update (ne nf : Nat) (flgH : Bool) (rows : List (Row α)) (cons : List (Contact α)) : Option (Out α) :=
   go ne nf flgH cons 0 rows zero [] [] (cons.map (fun _ => none))
+
+/-! ### mj_makeImpedance: regularisers of the constraint rows (C12)
+
+`src/engine/engine_core_constraint.c : mj_makeImpedance` — the value of `efc_R` that the first loop
+assigns (`impR`), the second loop that adjusts `R` in the friction dimensions of frictional contacts
+and sets `contact.mu` (`impEll`, `impPyr`, `impGo`), and the loop `D = 1/R` (`makeImpedance`).  The
+impedance `imp` itself (getsolparam / getimpedance) is an input of the model: it is read back from
+`efc_KBIP[4*i+2]`, where the function stores it.  `efc_KBIP` and the final adjustment of `efc_diagA`
+are not modelled. -/
+def cnstrPyramidal : Nat := 6
+
+/-- `R[i+j] = mju_max(mjMINVAL, (1-imp)*d->efc_diagA[i+j]/imp)` -/
+def impR (diagA imp : α) : α := mjuMax minval ((one - imp) * diagA / imp)
+
+/-- `R[i+1] = R[i]/mju_max(mjMINVAL, m->opt.impratio)` -/
+def impR1 (R0 impratio : α) : α := R0 / mjuMax minval impratio
+
+/-- `d->contact[id].mu = friction[0] * mju_sqrt(R[i+1]/R[i])` -/
+def impMu (R0 impratio f0 : α) : α := f0 * MjNum.sqrt (impR1 R0 impratio / R0)
+
+/-- `R[i+j+1] = R[i+1]*friction[0]*friction[0]/(friction[j]*friction[j])`, j ≥ 1 -/
+def impRj (R1 f0 fj : α) : α := R1 * f0 * f0 / (fj * fj)
+
+/-- what the second loop does for one frictional contact: the new `R` of the rows of the contact
+    (in row order) and `contact.mu` -/
+structure ImpCon (α : Type) where
+  R : List α
+  mu : α
+
+/-- elliptic contact with `R[i] = R0`, `friction[0] = f0`, `friction[1 .. dim-2] = fr` (`dim = fr.length + 2`) -/
+def impEll (R0 impratio f0 : α) (fr : List α) : ImpCon α :=
+  ⟨R0 :: impR1 R0 impratio :: fr.map (fun fj => impRj (impR1 R0 impratio) f0 fj), impMu R0 impratio f0⟩
+
+/-- pyramidal contact: `Rpy = 2*mu*mu*R[i]` assigned to all `2*(dim-1)` rows -/
+def impPyr (R0 impratio f0 : α) (dim : Nat) : ImpCon α :=
+  let mu := impMu R0 impratio f0
+  ⟨List.replicate (2 * (dim - 1)) (MjNum.ofInt 2 * mu * mu * R0), mu⟩
+
+/-- a row as `mj_makeImpedance` sees it -/
+structure IRow (α : Type) where
+  diagA : α
+  imp : α
+  type : Nat
+  id : Nat
+
+/-- the second loop from some row on: `rows` = (R after the first loop, type, id).  `none` = the C
+    code would index outside its arrays or not terminate (contact id out of range, `dim` outside
+    2..6, block past `nefc`, no friction coefficients). -/
+def impGo (impratio : α) (cons : List (Contact α)) :
+    (rows : List (α × Nat × Nat)) → (mus : List (Option α)) → Option (List α × List (Option α))
+  | [], mus => some ([], mus)
+  | (R0, ty, id) :: rest, mus =>
+    if ty = cnstrPyramidal ∨ ty = cnstrElliptic then
+      match cons[id]? with
+      | none => none
+      | some c =>
+        let nrows := if ty = cnstrElliptic then c.dim else 2 * (c.dim - 1)
+        match c.friction with
+        | [] => none
+        | f0 :: ftail =>
+          if c.dim < 2 ∨ 6 < c.dim ∨ rest.length < nrows - 1 ∨ ftail.length < c.dim - 2 then none
+          else
+            let o := if ty = cnstrElliptic then impEll R0 impratio f0 (ftail.take (c.dim - 2))
+                     else impPyr R0 impratio f0 c.dim
+            match impGo impratio cons (rest.drop (nrows - 1)) (setAt mus id (some o.mu)) with
+            | none => none
+            | some (Rs, mus') => some (o.R ++ Rs, mus')
+    else
+      match impGo impratio cons rest mus with
+      | none => none
+      | some (Rs, mus') => some (R0 :: Rs, mus')
+termination_by rows => rows.length
+decreasing_by
+  all_goals simp only [List.length_cons, List.length_drop]
+  all_goals omega
+
+structure ImpOut (α : Type) where
+  R : List α
+  D : List α
+  /-- `contact[k].mu` if the call wrote it -/
+  mu : List (Option α)
+
+/-- `mj_makeImpedance`: `efc_R`, `efc_D` and `contact.mu`; `nefnf = d->ne + d->nf` -/
+def makeImpedance (nefnf : Nat) (impratio : α) (rows : List (IRow α)) (cons : List (Contact α)) :
+    Option (ImpOut α) :=
+  let R1 := rows.map (fun r => (impR r.diagA r.imp, r.type, r.id))
+  match impGo impratio cons (R1.drop nefnf) (cons.map (fun _ => none)) with
+  | none => none
+  | some (Rs, mus) =>
+    let R := (R1.take nefnf).map (fun r => r.1) ++ Rs
+    some ⟨R, R.map (fun r => one / r), mus⟩
 
 /-! ### mju_mulMatTVec (dense `mj_mulJacTVec`): `res = 0; for r: if vec[r] != 0: res += mat[r,:]*vec[r]` -/
 def addToScl (res row : List α) (scl : α) : List α := List.zipWith (fun x m => x + m * scl) res row
